@@ -50,8 +50,8 @@ mk eq-extract-local src/bits/bit_vec.rs "        residual == 0
         let diff = self.as_ref()[full_words] ^ other.as_ref()[full_words];
         diff << shift == 0"
 mk bitfield-resize-flip-cond src/bits/bit_field_vec.rs "        if new_len > self.len {
-            if new_len * self.bit_width > self.bits.len() * W::BITS {" "        if self.len < new_len {
-            if new_len * self.bit_width > self.bits.len() * W::BITS {"
+            let new_bit_len = bit_len(new_len, self.bit_width);" "        if self.len < new_len {
+            let new_bit_len = bit_len(new_len, self.bit_width);"
 mk rcl-rename-locals src/dict/rear_coded_list.rs "let (lcp, order) = longest_common_prefix" "let (common, order) = longest_common_prefix" "let rear_length = self.last_str.len() - lcp;" "let rear_length = self.last_str.len() - common;" "&string.as_bytes()[lcp..]" "&string.as_bytes()[common..]" "self.stats.max_lcp.max(lcp)" "self.stats.max_lcp.max(common)" "self.stats.sum_lcp += lcp;" "self.stats.sum_lcp += common;" "self.stats.redundancy += lcp as isize;" "self.stats.redundancy += common as isize;"
 mk lenders-seek-rewind src/utils/lenders.rs "self.buf.seek(io::SeekFrom::Start(0)).map(|_| ())?;" "self.buf.rewind()?;"
 mk atomic-set-reorder src/bits/bit_field_vec.rs "                let mut new = current;
@@ -225,3 +225,91 @@ mk rank-hinted-for-loop src/bits/bit_vec.rs "        while (hint_pos + 1) * 64 <
         hint_pos = hint_pos.max(word_pos);
 
         rank + (bits.get_unchecked(hint_pos) & ((1 << (pos % 64)) - 1)).count_ones() as usize"
+mk pop-last-local src/bits/bit_vec.rs "        self.len -= 1;
+        let word_index = self.len / BITS;
+        let bit_index = self.len % BITS;
+        Some((self.bits[word_index] >> bit_index) & 1 != 0)" "        let last = self.len - 1;
+        let word_index = last / BITS;
+        let bit_index = last % BITS;
+        self.len = last;
+        Some((self.bits[word_index] >> bit_index) & 1 != 0)"
+mk extend-for-each src/bits/bit_vec.rs "        for b in i {
+            self.push(b);
+        }" "        i.into_iter().for_each(|b| self.push(b));"
+mk lcp-wordwise-be src/dict/rear_coded_list.rs "    // normal lcp computation
+    let mut i = 0;
+    while i < min_len && a[i] == b[i] {" "    let mut i = 0;
+    // compare eight bytes at a time (big endian: the word order is the byte order)
+    while i + 8 <= min_len {
+        let x = u64::from_be_bytes(a[i..i + 8].try_into().unwrap());
+        let y = u64::from_be_bytes(b[i..i + 8].try_into().unwrap());
+        if x != y {
+            let lcp = i + ((x ^ y).leading_zeros() / 8) as usize;
+            return (lcp, x.cmp(&y));
+        }
+        i += 8;
+    }
+    while i < min_len && a[i] == b[i] {"
+mk bfv-eq-hoist-backends src/bits/bit_field_vec.rs "        let bit_len = self.len() * self.bit_width();
+        if self.bits.as_ref()[..bit_len / W::BITS] != other.bits.as_ref()[..bit_len / W::BITS] {
+            return false;
+        }" "        let (bits, other_bits) = (self.bits.as_ref(), other.bits.as_ref());
+        let bit_len = self.len() * self.bit_width();
+        if bits[..bit_len / W::BITS] != other_bits[..bit_len / W::BITS] {
+            return false;
+        }"
+mk bitvec-resize-words-test src/bits/bit_vec.rs "            if new_len > self.bits.len() * BITS {
+                self.bits.resize(new_len.div_ceil(BITS), 0);
+            }" "            let words = new_len.div_ceil(BITS);
+            if words > self.bits.len() {
+                self.bits.resize(words, 0);
+            }"
+mk efbuilder-l-explicit-empty src/dict/elias_fano.rs "    pub fn new(n: usize, u: usize) -> Self {
+        let l = if u >= n && u > 0 {
+            (u / n.max(1)).ilog2() as usize
+        } else {
+            0
+        };
+
+        Self {
+            n,
+            u,
+            l,
+            low_bits: BitFieldVec::new(l, n)," "    pub fn new(n: usize, u: usize) -> Self {
+        let l = if u == 0 || u < n {
+            0
+        } else if n == 0 {
+            u.ilog2() as usize
+        } else {
+            (u / n).ilog2() as usize
+        };
+
+        Self {
+            n,
+            u,
+            l,
+            low_bits: BitFieldVec::new(l, n),"
+mk countones-u128-pairs src/bits/bit_vec.rs "        let mut num_ones = bits[..full_words]
+            .iter()
+            .map(|x| x.count_ones() as usize)
+            .sum();
+        if residual != 0 {
+            num_ones += (self.as_ref()[full_words] << (BITS - residual)).count_ones() as usize
+        }
+        num_ones
+    }
+}
+
+impl<B: AsRef<[usize]>> Index<usize> for BitVec<B> {" "        // two words at a time where the alignment allows it
+        let (pre, pairs, post) = unsafe { bits[..full_words].align_to::<u128>() };
+        let mut num_ones: usize = pre.iter().map(|x| x.count_ones() as usize).sum();
+        num_ones += pairs.iter().map(|x| x.count_ones() as usize).sum::<usize>();
+        num_ones += post.iter().map(|x| x.count_ones() as usize).sum::<usize>();
+        if residual != 0 {
+            num_ones += (self.as_ref()[full_words] << (BITS - residual)).count_ones() as usize
+        }
+        num_ones
+    }
+}
+
+impl<B: AsRef<[usize]>> Index<usize> for BitVec<B> {"
